@@ -69,7 +69,7 @@ def replay(ctx):
         cb = []
         for i, (bt, raw, uni) in enumerate(KINDS):
             cs = {"BType": '"%s"' % bt, "BRawId": raw, "Universe": '"%s"' % uni}
-            if i in (0, 4) or not ctx.quick():
+            if i == 0 or not ctx.quick():
                 cb += ctx.behaviours("data", "Gen_Containers", "Gen_Containers.cfg",
                                      constants=dict(cs, MaxOps=2, Depth=2), timeout=900)
             wl = ctx.pick(16, 30)
